@@ -119,6 +119,12 @@ impl Object {
 		Self { entries, indexes }
 	}
 
+	/// Verification hook: read-only dump of the key index buckets.
+	#[cfg(json_syntax_verif)]
+	pub fn verif_index_dump(&self) -> Vec<(usize, Vec<usize>)> {
+		self.indexes.verif_dump()
+	}
+
 	pub fn capacity(&self) -> usize {
 		self.entries.capacity()
 	}
